@@ -166,3 +166,15 @@ pub open spec fn ctx_from_schedule(ks: (Bytes, Bytes, Bytes), suite: Bytes) -> C
     CtxView { overflowed: false, seq: 0, key: ks.0, base_nonce: ks.1, exporter_secret: ks.2, suite_id: suite }
 }
 }
+
+verus!{
+// ---- §7.1.3 DeriveKeyPair for the NIST curves: first counter in c..=255 whose masked candidate is a
+// valid scalar ("while sk == 0 or sk >= order"); None = DeriveKeyPairError (probability < 2^-8192) ----
+pub open spec fn nist_dkp_first(valid: spec_fn(Bytes) -> bool, nh: nat, suite: Bytes, ikm: Bytes, nsk: nat, bitmask: u8, c: nat) -> Option<nat>
+    decreases 256 - c
+{
+    if c > 255 { None }
+    else if valid(dkp_candidate_spec(nh, suite, ikm, c, nsk, bitmask)) { Some(c) }
+    else { nist_dkp_first(valid, nh, suite, ikm, nsk, bitmask, c + 1) }
+}
+}
